@@ -238,3 +238,21 @@ pub fn scalarmult_raw(n: &[u8; 32], p: &[u8; 32]) -> ([u8; 32], bool) {
     let r = unsafe { ffi::crypto_scalarmult(q.as_mut_ptr(), n.as_ptr(), p.as_ptr()) };
     (q, r == 0)
 }
+
+pub fn sign_pk_to_curve(pk: &[u8; 32]) -> Option<[u8; 32]> {
+    let mut x = [0u8; 32];
+    let r = unsafe { ffi::crypto_sign_ed25519_pk_to_curve25519(x.as_mut_ptr(), pk.as_ptr()) };
+    if r == 0 { Some(x) } else { None }
+}
+pub fn sign_sk_to_curve(sk: &[u8; 64]) -> [u8; 32] {
+    let mut x = [0u8; 32];
+    unsafe { ffi::crypto_sign_ed25519_sk_to_curve25519(x.as_mut_ptr(), sk.as_ptr()); }
+    x
+}
+pub fn sign_combined(m: &[u8], sk: &[u8; 64]) -> Vec<u8> {
+    let mut sm = vec![0u8; m.len() + 64];
+    let mut l: u64 = 0;
+    unsafe { ffi::crypto_sign(sm.as_mut_ptr(), &mut l, m.as_ptr(), m.len() as u64, sk.as_ptr()); }
+    sm.truncate(l as usize);
+    sm
+}
